@@ -2,6 +2,7 @@
 from __future__ import annotations
 
 import copy
+import os
 import urllib.parse
 from typing import Any, Dict, List, Optional, Tuple
 
@@ -171,7 +172,8 @@ def _make_scope(typ: str, headers: List[List[str]]) -> Dict[str, Any]:
     }
 
 
-def _call_proxy(case: Dict[str, Any], headers: List[List[str]]) -> Tuple[dict, dict, dict]:
+def _call_proxy(case: Dict[str, Any], headers: List[List[str]],
+                mw: Any = None) -> Tuple[dict, dict, dict]:
     from hypercorn.middleware import ProxyFixMiddleware
 
     seen: Dict[str, Any] = {}
@@ -193,7 +195,10 @@ def _call_proxy(case: Dict[str, Any], headers: List[List[str]]) -> Tuple[dict, d
     async def send(m: dict) -> None:
         pass
 
-    mw = ProxyFixMiddleware(app, mode=case["mode"], trusted_hops=case["hops"])
+    if mw is not None:
+        mw.app = app  # the long-lived instance of a history, observed through this call's app
+    else:
+        mw = ProxyFixMiddleware(app, mode=case["mode"], trusted_hops=case["hops"])
     if case.get("warm"):
         earlier = _make_scope("http", [
             ["host", "earlier.example"], ["x-forwarded-for", "9.9.9.9, 8.8.8.8, 7.7.7.7, 5.5.5.5"],
@@ -590,8 +595,133 @@ def redirect_one(mw: Any, case: Dict[str, Any], calls: List[tuple]) -> CaseInfo:
                     ["redirect_" + typ, "scheme=" + target_scheme])
 
 
+# --------------------------------------------------------------------------- stateful machine
+# One long-lived instance of each middleware, as in a running server, driven through a generated
+# HISTORY of requests (Hypothesis rule-based state machine: rules are requests, the history
+# shrinks as one value). The oracle is stateless - every single call must come out exactly as
+# it would on a fresh instance - so anything a middleware carries over between calls shows.
+
+
+def history_step(step: Dict[str, Any], insts: Dict[str, Any]) -> None:
+    kind = step["kind"]
+    if kind == "redirect":
+        calls = insts["redirect_calls"]
+        del calls[:]
+        redirect_one(insts["redirect"], step["req"], calls)
+    elif kind == "proxy":
+        case = step["case"]
+        before, after, down = _call_proxy(dict(case, warm=False), case["headers"],
+                                          mw=insts["proxy"][(case["mode"], case["hops"])])
+        if after != before:
+            raise Violation("caller_scope_mutated", f"{before!r} -> {after!r}")
+        if case["type"] == "lifespan":
+            return
+        model = proxy_model(case["mode"], case["hops"], case["headers"])
+        want = copy.deepcopy(before)
+        if model["client"] is not None:
+            want["client"] = (model["client"], 0)
+        if model["scheme"] is not None:
+            want["scheme"] = model["scheme"]
+        if model["host"] is not None:
+            want["headers"] = [(n, v) for n, v in want["headers"] if n.lower() != b"host"]
+            want["headers"].append((b"host", s2b(model["host"])))
+        if dict(down) != want:
+            raise Violation("trusted_value_wrong", f"in a history: mode={case['mode']} "
+                            f"hops={case['hops']} headers={case['headers']}: got "
+                            f"{ {k: down.get(k) for k in ('client', 'scheme')} }", mode=case["mode"])
+
+
+def run_history(case: Dict[str, Any]) -> CaseInfo:
+    """Replays a history found by the machine (plain code, no Hypothesis)."""
+    insts = new_instances(case["config_host"])
+    for step in case["steps"]:
+        history_step(step, insts)
+    return CaseInfo(len(case["steps"]) >= 2, [f"steps={len(case['steps'])}"],
+                    evals=len(case["steps"]))
+
+
+def new_instances(config_host: Optional[str]) -> Dict[str, Any]:
+    from hypercorn.middleware import HTTPToHTTPSRedirectMiddleware, ProxyFixMiddleware
+
+    calls: List[tuple] = []
+
+    async def app(sc: dict, receive: Any, send: Any) -> None:
+        calls.append((sc, receive, send))
+
+    async def sink(scope: dict, receive: Any, send: Any) -> None:
+        return None
+
+    return {"redirect": HTTPToHTTPSRedirectMiddleware(app, config_host), "redirect_calls": calls,
+            "proxy": {(m, h): ProxyFixMiddleware(sink, mode=m, trusted_hops=h)
+                      for m in ("legacy", "modern") for h in range(0, 5)}}
+
+
+def run_machine(case: Dict[str, Any]) -> CaseInfo:
+    import hypothesis
+    from hypothesis import HealthCheck, Phase, Verbosity, settings
+    from hypothesis.stateful import RuleBasedStateMachine, initialize, rule, run_state_machine_as_test
+
+    stats = {"steps": 0, "histories": 0, "long": 0}
+
+    class MiddlewareHistories(RuleBasedStateMachine):
+        def __init__(self) -> None:
+            super().__init__()
+            self.history: List[Dict[str, Any]] = []
+            self.config_host: Optional[str] = None
+            self.insts: Dict[str, Any] = {}
+            stats["histories"] += 1
+
+        @initialize(config_host=st.one_of(st.none(), st.sampled_from(["secure.example", "s:8443"])))
+        def start(self, config_host: Optional[str]) -> None:
+            self.config_host = config_host
+            self.insts = new_instances(config_host)
+
+        def _do(self, step: Dict[str, Any]) -> None:
+            self.history.append(step)
+            stats["steps"] += 1
+            if len(self.history) == 4:
+                stats["long"] += 1
+            try:
+                history_step(step, self.insts)
+            except Violation as v:
+                v.replay_case = {"config_host": self.config_host,  # type: ignore
+                                 "steps": list(self.history)}
+                v.replay_part = "history"  # type: ignore
+                raise
+
+        @rule(req=redirect_request())
+        def redirect(self, req: Dict[str, Any]) -> None:
+            req = dict(req, config_host=self.config_host)
+            self._do({"kind": "redirect", "req": req})
+
+        @rule(case=proxy_case())
+        def proxy(self, case: Dict[str, Any]) -> None:
+            self._do({"kind": "proxy", "case": dict(case, attacker=[], warm=False)})
+
+    machine = hypothesis.seed(case["seed"])(MiddlewareHistories)
+    run_state_machine_as_test(machine, settings=settings(
+        max_examples=case["examples"], stateful_step_count=12, deadline=None, database=None,
+        report_multiple_bugs=False, suppress_health_check=list(HealthCheck),
+        phases=[Phase.generate, Phase.shrink], verbosity=Verbosity.quiet, print_blob=False))
+    return CaseInfo(True, [f"histories~{stats['histories']}", f"steps~{stats['steps'] // 100}00",
+                           f"histories_of_4+~{stats['long']}"], evals=stats["steps"])
+
+
+def enumerate_machines(tier: str) -> Any:
+    n, examples = (8, 60) if tier == "quick" else (32, 1500)
+    for i in range(n):
+        yield {"kind": "machine", "seed": int(os.environ.get("VERIF_SEED", "1")) * 1000 + i,
+               "examples": examples}
+
+
 def parts() -> List[Part]:
     return [
+        Part("machine", run_machine, enumerate=enumerate_machines, max_shards=16,
+             rule="Hypothesis rule-based state machine: histories of up to 12 requests through "
+                  "one long-lived instance of the redirect middleware and of ProxyFix (every "
+                  "mode/hops), each call judged against the stateless model"),
+        Part("history", run_history, enumerate=lambda tier: iter(()),
+             rule="(replay only) a history found by the machine, re-run without Hypothesis"),
         Part("proxy_fix", run_proxy, strategy=proxy_case, quick=4000, thorough=120000,
              rule="forwarding headers x hops x mode x attacker prefix"),
         Part("dispatch", run_dispatch, strategy=dispatch_case, quick=2000, thorough=60000,
